@@ -231,7 +231,7 @@ def main(tier: str) -> int:
                        'several admissible overflow results, irrational result under REAL) the run is counted and not compared',
                        'NotImplementedError of the implementation (operation not offered for these operands) is counted, not judged',
                        'a negated zero / integer literal is a literal (parser comment); every other unary minus is the rounded operator Neg']
-    run_shards('vf.checks.c04', 16, tier, s, timeout=1500 if tier == 'quick' else 3400, res=res)
+    run_shards('vf.checks.c04', 16 if tier == 'quick' else 48, tier, s, timeout=1500 if tier == 'quick' else 3400, res=res)
     c = res.counters
     if not res.violations:
         ops = res.extra.get('ops_seen', {})
